@@ -16,7 +16,8 @@ mount --bind $LANE_DIR/repo /repo && mount --bind $LANE_DIR/verif /verif || exit
 cd /verif
 for n in $LANE_SEEDS; do
   pid=${n:0:3}
-  r=$(bash tools/seedtest.sh $pid /verif/seeded/$n/patch.diff quick 2>&1 | tail -3 | cut -c1-330)
+  pf=/verif/seeded/$n/patch.diff; [ -f /verif/seeded/$n/patch.rebased.diff ] && pf=/verif/seeded/$n/patch.rebased.diff
+  r=$(bash tools/seedtest.sh $pid $pf quick 2>&1 | tail -3 | cut -c1-330)
   printf "== %s\n%s\n" "$n" "$r" >> $LANE_OUT
 done
 '
